@@ -832,6 +832,31 @@ def rule_R32_or_else(text, log):
 
 
 
+def rule_R33_cmp_min_max(text, log):
+    """`cmp::min(A, B)` -> `{ let vx_ma = A; let vx_mb = B; if vx_mb < vx_ma { vx_mb } else { vx_ma } }`, `cmp::max` likewise
+    (definition of std::cmp::min / max for a totally ordered type: min returns the first argument when they are equal, max the second)"""
+    out = text
+    rx = re.compile(r'(?<![\w:])(?:(?:std|core)::)?cmp::(min|max)\s*\(')
+    while True:
+        mask = code_mask(out)
+        mm = next((m for m in rx.finditer(out) if mask[m.start()]), None)
+        if not mm:
+            return out
+        op = mm.end() - 1
+        cl = match_brace(out, mask, op)
+        args = _split_params(out[op + 1:cl])
+        if len(args) != 2:
+            raise Unsupported('R33: cmp::%s with %d arguments' % (mm.group(1), len(args)))
+        if mm.group(1) == 'min':
+            new = '{ let vx_ma = %s; let vx_mb = %s; if vx_mb < vx_ma { vx_mb } else { vx_ma } }' % (args[0], args[1])
+        else:
+            new = '{ let vx_ma = %s; let vx_mb = %s; if vx_mb < vx_ma { vx_ma } else { vx_mb } }' % (args[0], args[1])
+        pad = '\n' * max(0, out[mm.start():cl + 1].count('\n') - new.count('\n'))
+        log.append(('R33', norm_ws(out[mm.start():cl + 1])[:100], norm_ws(new)[:140]))
+        out = out[:mm.start()] + new + pad + out[cl + 1:]
+
+
+
 def rule_R5_labelled_for(text, log):
     """'l: for _ in 0..n { B }  ->  { let mut vx_i: usize = 0; 'l: while vx_i < n { vx_i += 1; B } }
     only for the shape `'l: for _ in 0..<ident> {` (counter unused)"""
@@ -1325,7 +1350,7 @@ class Unit(object):
         self.lost_aids = []
         self.gone_fns = []
         self.late_hints = False
-        self.rules = set(['R1', 'R2', 'ATTR', 'R4', 'R5', 'R6', 'R10', 'R11', 'R14', 'R15', 'R17', 'R22', 'R23', 'R25', 'R26', 'R27', 'R28', 'R29', 'R30'])
+        self.rules = set(['R1', 'R2', 'ATTR', 'R4', 'R5', 'R6', 'R10', 'R11', 'R14', 'R15', 'R17', 'R22', 'R23', 'R25', 'R26', 'R27', 'R28', 'R29', 'R30', 'R33'])
         self.unit_props = []
         self.lemmas = []
         self.tmpl_fns = []          # hand-written exec/proof fns in template (name, props)
@@ -1405,6 +1430,8 @@ class Unit(object):
                 text = rule_R29_iter_copied(text, log)
             if 'R30' in self.rules:
                 text = rule_R30_and_then(text, log)
+            if 'R33' in self.rules:
+                text = rule_R33_cmp_min_max(text, log)
             if 'R31' in self.rules:
                 text = rule_R32_or_else(text, log)
                 text = rule_R31_iter_predicates(text, log)
